@@ -1827,6 +1827,29 @@ class Executor:
             return self.pool_put(st, args[0], args[1], pos)
         if name.endswith('.init'):
             return None
+        if name in ('bytes.IndexByte', 'strings.IndexByte'):
+            # first index of byte c, or -1 (forks on the position)
+            b = self.zs(st, args[0])
+            cells = b[1] if b[0] == 'Z' else self.slice_cells(st, b)
+            c = args[1]
+            for i, x in enumerate(cells):
+                if x.__class__ is int and c.__class__ is int:
+                    hit = x == c
+                else:
+                    hit = self.store.mk('eq', 0, x, c)
+                if self.take(st, hit):
+                    return i
+            return mask(64)   # -1
+        if name in ('bytes.Equal', 'bytes.HasPrefix', 'strings.HasPrefix'):
+            a = self.zs(st, args[0])
+            b = self.zs(st, args[1])
+            ca = a[1] if a[0] == 'Z' else self.slice_cells(st, a)
+            cb = b[1] if b[0] == 'Z' else self.slice_cells(st, b)
+            if name.endswith('HasPrefix'):
+                if len(ca) < len(cb):
+                    return False
+                ca = ca[:len(cb)]
+            return self.bytes_eq(tuple(ca), tuple(cb))
         raise Unsupported('extern call ' + name)
 
     def pool_get(self, st, pool, pos):
